@@ -309,6 +309,9 @@ func (s *State) box(v Val, ifaceT types.Type) Val {
 		return Val{T: ifaceT, S: name}
 	default:
 		if v.S == "" {
+			v.S = s.globRef(v)
+		}
+		if v.S == "" {
 			s.unsupported("boxing a pointer with static address")
 			return Val{T: ifaceT, S: "nilI"}
 		}
@@ -956,4 +959,16 @@ func (s *State) step(instr ssa.Instruction) {
 func (s *State) closureID(c *Closure) string {
 	id := s.c.eng.fnID(c.Fn)
 	return fmt.Sprint(id)
+}
+
+// globRef: the address of a package-level variable as an opaque reference that existed before this activation
+// ("" when v is not such an address).
+func (s *State) globRef(v Val) string {
+	if v.S != "" || v.Addr == nil || v.Addr.Space != "glob" || v.Addr.Glob == nil || v.Addr.Glob.Pkg == nil {
+		return v.S
+	}
+	g := "gref_" + sanitize(v.Addr.Glob.Pkg.Pkg.Name()+"_"+v.Addr.Glob.Name())
+	s.c.declare(g, "(declare-const "+g+" Int)")
+	s.assume(and(app("<", "0", g), app("<", g, s.alloc0)))
+	return g
 }
